@@ -390,6 +390,8 @@ class Interp:
                 return Bound(base, name)
         if isinstance(base, Rng):
             return Bound(base, name)
+        if isinstance(base, Seed) and base.kind == "rstate":       # a RandomState object handed in by the caller
+            return Bound(Rng("given"), name)
         raise Refuse("%s: attribute .%s of %r" % (self.where(node), name, base))
 
     def compare(self, op, a, b, node):
